@@ -480,7 +480,8 @@ pub fn canon(v: CV) -> CV {
                     let v = canon(v);
                     // enum variant holding a hash set: its array order is not semantic
                     let v = match (&k, v) {
-                        (CV::Text(t), CV::Array(mut items)) if t == "UtxoSet" => {
+                        // ... or an asset list produced from a hash map of classes: a bag of terms
+                        (CV::Text(t), CV::Array(mut items)) if t == "UtxoSet" || t == "Assets" => {
                             items.sort_by_key(enc);
                             CV::Array(items)
                         }
